@@ -5,6 +5,7 @@ Driver for C10.  One request per line, `k=v` fields separated by single spaces:
   op=canon T=<integer type|decimal|boolean> (I=<int> | S=<lexical form> | B=<0|1>)
   op=greg K=<time|gDay|gMonth|gMonthDay> S=<cps>   op=lang S=<cps>   op=name K=<NCName|Name|NMTOKEN|QName> S=<cps>
   op=date K=<date|dateTime|dateTimeStamp|gYear|gYearMonth> V=<10|11> S=<cps>   op=str K=<string|untypedAtomic|normalizedString|token> S=<cps>
+  op=uri F=<0|1: urlparse raised> P=<cps of urlparse(...).path> S=<cps>
   op=tz S=<timezone text>   op=tzcanon M=<minutes>   op=dur K=<duration|yearMonthDuration|dayTimeDuration> S=<cps>
   op=hexenc|b64enc Y=<octets, comma separated, `_` = empty>
   op=hex2b64|b642hex S=<stored value>
@@ -16,8 +17,8 @@ flags: `w` the string contains a character that Python treats as white space but
        `d` (op=cast, double -> string) the double lies where string_value and the F&O canonical form differ (F10b)
        `r` (op=cast, double operand) the model `pyRepr` of CPython's repr(float) does not reproduce the given repr
        `o` (op=cast, integer -> double) the integer is too large for float(int) (F10o)
-       `n` (op=name) some character of the collapsed string is classified differently by the code's `\w`-based
-           tables (generated) and by the XML 1.0 (5th ed.) name productions (F10n)
+       `n` (op=name; cannot occur while EPV.C10.name_tables_agree holds) some character of the collapsed string is classified differently by the code's `\w`-based
+           tables (generated) and by the XML 1.0 (5th ed.) name productions (former F10n)
 -/
 import EPV.Proto
 import EPV.Model.Lexical
@@ -364,6 +365,14 @@ def answer (line : String) : String :=
         | x :: r => (Lex.inRanges first x == XSD.inSet sf x) && r.all fun y => Lex.inRanges later y == XSD.inSet sl y
       out m m sp (flags s ++ (if alike then "" else "n"))
     | none => "bad-string"
+  else if op == "uri" then
+    match parseCPs (field fs "S"), parseCPs (field fs "P") with
+    | some s, some path =>
+      let m := match Lex.anyUriCtor (field fs "F" == "1") path s with | some v => "ok:" ++ showCPs v | none => "ERR:V"
+      let c := XSD.wsCollapse s
+      let sp := s!"ok:{showCPs c}:hash={if XSD.atMostOneHash c then 1 else 0}:pct={if XSD.pctEncodedOk c then 1 else 0}"
+      out m m sp (flags s)
+    | _, _ => "bad-string"
   else if op == "str" then
     match parseCPs (field fs "S") with
     | some s =>
